@@ -38,7 +38,8 @@ pub open spec fn sp_bytes(s: Seq<char>) -> Seq<u8> { vstd::utf8::encode_utf8(s) 
 pub uninterp spec fn sp_hmac(v: ScramVersion, key: Seq<u8>, msg: Seq<u8>) -> Option<Seq<u8>>;
 pub uninterp spec fn sp_h(v: ScramVersion, x: Seq<u8>) -> Seq<u8>;
 pub uninterp spec fn sp_hi(v: ScramVersion, password: Seq<char>, salt: Seq<u8>, iters: u32) -> Option<Seq<u8>>;
-pub uninterp spec fn sp_xor(a: Seq<u8>, b: Seq<u8>) -> Option<Seq<u8>>;
+/// RFC 5802: XOR of two octet strings of the same length, octet by octet
+pub open spec fn sp_xor(a: Seq<u8>, b: Seq<u8>) -> Option<Seq<u8>> { if a.len() != b.len() { None } else { Some(Seq::new(a.len(), |i: int| a[i] ^ b[i])) } }
 
 pub const PEER_ITERATIONS_CEILING: u32 = 0x400_0000;
 //@@ type file=fe2o3-amqp/src/auth/scram/mod.rs kind=const name=MAX_SCRAM_ITERATIONS optional
@@ -350,6 +351,17 @@ pub open spec fn client_small(c: ScramClient) -> bool {
     c.state is ClientFirstSent ==> small(c.state->ClientFirstSent_client_first_message_bare@.len() as int)
 }
 
+/// std::ops::{BitXor, BitOr, BitAnd} on `&u8` called as methods: the operators they are
+pub trait BitOpsS: Sized { spec fn val(self) -> u8; fn bitxor(self, r: &u8) -> (o: u8) ensures o == self.val() ^ *r; fn bitor(self, r: &u8) -> (o: u8) ensures o == self.val() | *r; fn bitand(self, r: &u8) -> (o: u8) ensures o == self.val() & *r; }
+impl BitOpsS for &u8 { open spec fn val(self) -> u8 { *self } fn bitxor(self, r: &u8) -> (o: u8) { *self ^ *r } fn bitor(self, r: &u8) -> (o: u8) { *self | *r } fn bitand(self, r: &u8) -> (o: u8) { *self & *r } }
+//@@ fn file=fe2o3-amqp/src/auth/scram/mod.rs name=xor as=xor_real id=scram::xor
+//@@ shape loops=for
+//@@ subst `lhs .iter() .zip(rhs.iter()) .map(|(l, r)| __E1) .collect()` => `{ let mut __o: Vec<u8> = Vec::new(); for __i in __it0: 0..lhs.len() { let l = &lhs[__i]; let r = &rhs[__i]; __o.push(__E1); } __o }` rule=R34
+//@@ loop 0
+            invariant lhs@.len() == rhs@.len(), __o@.len() == __i, forall|j: int| 0 <= j < __i ==> #[trigger] __o@[j] == lhs@[j] ^ rhs@[j],
+//@@ spec
+    ensures (match r { Ok(x) => sp_xor(lhs@, rhs@) == Some(x@), Err(_) => sp_xor(lhs@, rhs@) is None }),       // [C19.scram.xor-is-octetwise] the XOR that combines ClientKey and ClientSignature into the proof (and recovers the key from the proof on the listener) is the octet-by-octet XOR of two strings of the same length, refused for different lengths
+//@@ end
 impl ScramVersion {
     /// ScramVersion::client_first_message (`n,,n=<user>,r=<nonce>` and the same without the gs2 header): stand-in
     #[verifier::external_body]
